@@ -61,6 +61,18 @@ def timeout_in_interconnect(ctx, rel, cls, tcls, dcls, r1="T1", r2="T2"):
         # same bus as the decoder's master
         ok3 = decs and norm(touts[0].call.args[0]) == norm(decs[0].call.args[0])
         ctx.ob(r1, rel, cls, "Timeout watches the decoder's master bus", ok3, "" if ok3 else f"{touts[0]} vs {decs[0] if decs else None}", touts[0].node)
+        # the SoC finds the watchdog by attribute name: SoC.finalize wires ctrl.bus_error only `if hasattr(interconnect, "<name>")`
+        # and reads `<name>.error`; a watchdog kept as an anonymous submodule is never counted (writer / reader agreement)
+        soc_ = ctx.mod("litex/soc/integration/soc.py")
+        names_ = set()
+        for n_ in ast.walk(soc_.tree):
+            if isinstance(n_, ast.Call) and norm(n_.func) == "hasattr" and len(n_.args) == 2 and "_interconnect" in norm(n_.args[0]) and \
+                    isinstance(n_.args[1], ast.Constant) and isinstance(n_.args[1].value, str):
+                names_.add(n_.args[1].value)
+        ok4 = len(names_) == 1 and touts[0].name == f"self.{next(iter(names_))}"
+        ctx.ob(r1, rel, cls, "the watchdog is published under the attribute the SoC reads its error pulse from", ok4,
+               "" if ok4 else f"the {tcls} is bound to `{touts[0].name}`, SoC.finalize looks for {sorted(names_)}: the time-out still answers the "
+                              f"master but ctrl.bus_errors never counts it", touts[0].node)
 
 
 def wb_timeout_body(ctx, rid):
